@@ -70,6 +70,8 @@ pub struct Cfg {
     /// Epilogue variants offered.
     pub final_drop_ring_first: bool,
     pub sqpoll: bool,
+    /// Failing zero-copy sends still post a notification CQE.
+    pub zc_error_notif: bool,
 }
 
 impl Cfg {
@@ -98,6 +100,7 @@ impl Cfg {
             report: vec![prop],
             final_drop_ring_first: false,
             sqpoll: false,
+            zc_error_notif: true,
         }
     }
 }
@@ -216,6 +219,7 @@ impl OpsWorld {
     pub fn new(cfg: Cfg) -> OpsWorld {
         let plan = simk::SetupPlan { c0_sq: cfg.c0_sq, c0_cq: cfg.c0_cq, ..Default::default() };
         simk::reset(plan);
+        simk::with(|k| k.zc_error_notif = cfg.zc_error_notif);
         talloc::set_on_free(Some(simk::on_free));
         let need_pool = cfg.kinds.iter().chain(cfg.preset.iter()).any(|k| k.needs_pool());
         let need_table = cfg.direct_table.is_some();
@@ -1054,7 +1058,7 @@ impl OpsWorld {
             talloc::track(|| drop(op));
         }
         // 2: kernel answers everything outstanding (cancel requests first).
-        for _ in 0..4 {
+        for _ in 0..8 {
             talloc::track(|| {
                 let _ = self.ring.as_mut().unwrap().poll(Some(Duration::ZERO));
             });
@@ -1062,8 +1066,8 @@ impl OpsWorld {
             if !self.violations.is_empty() {
                 return self.bail();
             }
-            let infl = simk::with(|k| k.inflight());
-            if infl.is_empty() {
+            let (infl, pending) = simk::with(|k| (k.inflight(), k.rings[0].sq_pending()));
+            if infl.is_empty() && pending == 0 {
                 break;
             }
             for s in infl {
